@@ -112,13 +112,24 @@ class World:
                 self.bins[n] = Program(p)
         self.models = Models()
         self.runs = {}
+        self.failed = {}
         self.timings = {}
 
     # ------------------------------------------------------------ engine runs
     def run(self, name):
+        if name in self.failed:
+            from .engine import BudgetExceeded
+            raise BudgetExceeded(self.failed[name])      # do not explore the same over-budget program once per rule
         if name in self.runs:
             return self.runs[name]
         pk = os.path.join(self.cache_dir, "run-%s-%s.pkl" % (_hash_analyzer(), name.replace("/", "_").replace(":", "_").replace("<", "(").replace(">", ")")))
+        if os.path.exists(pk + ".failed") and not os.environ.get("VERIF_NO_CACHE"):
+            from .engine import BudgetExceeded
+            try:
+                self.failed[name] = open(pk + ".failed").read()
+            except OSError:
+                self.failed[name] = "exploration budget exceeded"
+            raise BudgetExceeded(self.failed[name])
         if os.path.exists(pk) and not os.environ.get("VERIF_NO_CACHE"):
             try:
                 with open(pk, "rb") as f:
@@ -131,7 +142,17 @@ class World:
             except Exception:
                 pass
         t0 = time.time()
-        eng = self._compute(name)
+        from .engine import BudgetExceeded
+        try:
+            eng = self._compute(name)
+        except BudgetExceeded as e:
+            self.failed[name] = str(e)
+            try:
+                with open(pk + ".failed", "w") as f:
+                    f.write(str(e))
+            except OSError:
+                pass
+            raise
         self.timings[name] = time.time() - t0
         self.runs[name] = eng
         try:
@@ -160,7 +181,7 @@ class World:
     def engine(self, opts=None):
         from . import monitors
         eng = Engine(self.lib, self.models, opts=opts or {})
-        eng.deadline = time.time() + float(os.environ.get("VERIF_BUDGET_S", "900"))
+        eng.deadline = time.time() + float(os.environ.get("VERIF_BUDGET_S", "600"))
         monitors.install(eng, self)
         return eng
 
